@@ -38,6 +38,7 @@ def run(ctx):
     ctx.do(rule_container_dispatch)
     ctx.do(rule_absent_values)
     ctx.do(rule_presence_by_membership)
+    ctx.do(rule_bounds_are_legal)
     from .regexlang import rule_regex_languages
     ctx.do(rule_regex_languages, "C03.regex-language", ["complete"])
     run.floor("C03.regex-language", 5)
@@ -46,6 +47,12 @@ def run(ctx):
     ctx.do(rule_positional_index, rule_id="C03.selector-acceptance")
     ctx.do(rule_syntax_agreement, rule_id="C03.selector-acceptance", language_only=True)
     ctx.do(rule_descends, rule_id="C03.selector-acceptance")
+    # "accepted AND PRESERVED": what a timestamp slot keeps is the instant the text denotes, cut only as the slot prescribes
+    from . import C15
+    ctx.do(C15.rule_truncate, rule_id="C03.timestamp-pipeline")
+    # the constructor's scan of the extensions accumulates what ANY entry establishes
+    from .pitfalls import rule_loop_flags_monotone
+    ctx.do(rule_loop_flags_monotone, "C03.absent-values", ("stix2.base",))
     from .hidden_state import rule_no_hidden_state
     ctx.do(rule_no_hidden_state, "C03.history-independence")
 
@@ -378,14 +385,35 @@ def rule_container_dispatch(ctx):
     run.floor(R, 4)
 
 
-def rule_presence_by_membership(ctx):
+def rule_bounds_are_legal(ctx):
+    """The bounds of a numeric slot are themselves legal values (confidence 100, port 65535, count 999999999): the range guards
+    of the numeric cleaners refuse only what lies strictly outside.  The strict direction of C02.clean-contract's guard table:
+    an inclusive comparison (`>=` max, `<=` min) or an extra refusing guard makes valid content unparseable; a MISSING guard
+    is the permissive direction and is C02's business, not reported here."""
+    from .C02 import range_guard_table
+    run = ctx.run
+    prog = ctx.prog
+    R = "C03.clean-contract"
+    legal = {("min", "Lt", "guarded-by-min"), ("max", "Gt", "guarded-by-max")}
+    for cid in ("IntegerProperty", "FloatProperty"):
+        fi = prog.cls("stix2.properties::" + cid).methods.get("clean")
+        if fi is None:
+            raise AnalysisError("anchor missing: %s.clean" % cid)
+        extra = sorted(range_guard_table(fi) - legal)
+        run.check(not extra, R, key(fi.module.relpath, fi.qualname, "bounds-are-legal-values"),
+                  "a range guard refuses more than the values strictly outside [min, max]: the bound itself (confidence 100, port "
+                  "65535, number_observed 999999999) or other legal values are refused", file=fi.module.relpath, line=fi.node.lineno,
+                  function=fi.qualname, expected="raise only under `value < self.min` / `value > self.max`", found=extra)
+
+
+def rule_presence_by_membership(ctx, rule_id="C03.presence-by-membership"):
     """The co-constraint helpers decide whether a property is PRESENT.  Presence is key membership (`p in self`,
     `self.keys()`, properties_populated()); the truthiness of the value (`if self.get(p)`) treats legal falsy values --
     0, False, '' -- as absent: an object whose only given properties are `pid: 0` or `is_self_signed: false` is refused."""
     from .C08 import _bool_uses
     run = ctx.run
     prog = ctx.prog
-    R = "C03.presence-by-membership"
+    R = rule_id
     base = prog.cls("stix2.base::_STIXBase")
     for name in ("_check_mutually_exclusive_properties", "_check_at_least_one_property", "_check_properties_dependency",
                  "properties_populated"):
